@@ -1,5 +1,7 @@
 import Comdex.Lemmas.LiqOrders
 import Comdex.Lemmas.LiqAmmBridge
+import Comdex.Lemmas.LiqIndex
+import Comdex.Lemmas.LiqFee
 /-!
 # C07 — Every order is settled exactly: fills, refunds and swap fees add up
 
@@ -15,6 +17,10 @@ Property clause → theorem
   fee reserve not attributable to the executed portion"
       → `finish_moves_exactly` (what `FinishOrder` pays to whom), `fill_pays_demand_coins` (each fill's demand coins go to
         the owner), `terminated_settled` (ledger of every ended order, any history)
+* (swap fee at batch execution and in every message, end to end)
+      → `fee_collector_exact` (every operation: the pair's swap-fee collector grows by exactly the fee on the executed portions of
+        the orders of that pair that ended in the step), `pruning_moves_nothing`, `ended_order_accounts` (escrow out = refund to
+        the owner + fee to the collector = remaining + reserve, in balances of a reachable state)
 * "nothing of a terminated order remains in escrow"
       → `terminated_settled` (taken = spent + refunded + forwarded) with `escrow_holds_only_live_orders`
 * "an order that is not in its placement batch can always be cancelled by its owner"
@@ -26,8 +32,21 @@ Property clause → theorem
         their placement batch are left exactly as they were)
 * "cancelling or replacing market-making orders cancels and refunds every previously placed market-making order of that
   owner in that pair — for every combination of app id and pair id"
-      → `mm_cancel_cancels_all`, `mm_replace_cancels_all` (repaired lookup, all app / pair ids),
+      → `mm_index_complete` (INDUCTIVE INVARIANT over every history — placement, fills, expiry, cancel, cancel-all, MM cancel,
+          MM replace, begin-block pruning: every live market-making order is in its owner's index for the (app, pair)) with
+          `order_keys_unique` (order keys are unique; ids never re-used),
+        `mm_cancel_cancels_all`, `mm_replace_cancels_all` (repaired lookup, all app / pair ids, reachable states, NO premise
+          about the index: after the accepted message NO market-making order of the owner in the pair is live, none has
+          disappeared, each is settled with refund = unspent offer; the replace appends the new ones),
+        `mm_cancel_cancels_indexed` (any state: every order listed in the index is ended),
         `mm_cancel_cancels_all_counterexample` (the lookup as it stands in swap.go:559: app 2 / pair 1 — defect D4)
+* (round 5, seed s87) the registered store migration 1 → 2 (`Migrator.Migrate1to2`, legacy/v2/store.go) is an operation of the
+  model (`Op.migrate`): `migration_preserves_orders` (identity on bank, pairs, requests, indexes, farmers and on every field of
+  every order except its type; fee reserves unchanged); the ledger invariant and the index invariant are preserved
+  (`migrate_inv`, `idx_migrate`), so every theorem here covers histories with migrations
+* (round 5) the order price, the tick grid, the price limits around the pair's last price, `MMOrderTicks` and the offer / demand
+  denom checks are part of the model (`orderPrice`, `mmTicks`, `placeOrderMsg`, `mmOrderMsg`): `placement_takes_exactly` states
+  the recorded price as `orderPrice` of the message price
 -/
 namespace Comdex.C07
 open Comdex.LiqLedger
@@ -40,16 +59,16 @@ theorem reachable_inv {cfg : Cfg} (hc : CfgOk cfg) (funds : List (Nat × Nat × 
 
 /-- **Placement takes exactly offer + fee reserve**: a successful limit / market order moves exactly
 `offer + ⌊offer·feeRate⌋` of the offer denom from the orderer to the pair's escrow, and records exactly that. -/
-theorem placement_takes_exactly {cfg : Cfg} {s s' : State} {app user pair : Nat} {typ : OType} {buy : Bool}
-    {msgOffer msgPrice price amount : Nat} {lifespan : Int} {ext : Bool}
-    (h : step cfg s (.order app user pair typ buy msgOffer msgPrice price amount lifespan ext) = some s') :
-    ∃ p ac o, s.pair? app pair = some p ∧ cfg.app? app = some ac ∧
-      s'.orders = s.orders ++ [o] ∧ o.app = app ∧ o.pair = pair ∧ o.owner = user ∧ o.od = sideIn p buy ∧
+theorem placement_takes_exactly {cfg : Cfg} {s s' : State} {app user pair : Nat} {typ : OType} {buy : Bool} {od dd : Denom}
+    {msgOffer msgPrice amount : Nat} {lifespan : Int}
+    (h : step cfg s (.order app user pair typ buy od dd msgOffer msgPrice amount lifespan) = some s') :
+    ∃ p ac o price, s.pair? app pair = some p ∧ cfg.app? app = some ac ∧ orderPrice ac p typ buy msgPrice = some price ∧
+      s'.orders = s.orders ++ [o] ∧ o.app = app ∧ o.pair = pair ∧ o.owner = user ∧ o.od = sideIn p buy ∧ o.od = od ∧
       o.offer = offerAmt buy price amount ∧ o.remaining = o.offer ∧ o.status = .notExecuted ∧ o.batch = p.curBatch ∧
       o.taken = o.offer + feeOf ac.feeRate o.offer ∧
       s.bal (.user user) o.od = s'.bal (.user user) o.od + o.taken ∧
       s'.bal (.pairEscrow app pair) o.od = s.bal (.pairEscrow app pair) o.od + o.taken :=
-  placeOrder_takes h
+  placeOrderMsg_takes h
 
 /-- **Taken = offer + fee reserve**, for every order in every reachable state (the reserve of a market-making order
 is zero: swap.go:377 escrows the offer coins only). -/
@@ -164,10 +183,117 @@ theorem cancel_all_cancels_every_old_order {cfg : Cfg} {s s' : State} {app user 
     (¬ o.batch < pp.curBatch → s'.order? k = some o) :=
   cancelAll_all h k o pp ho hp
 
-/-- **MsgCancelMMOrder cancels every indexed order** (repaired lookup), for every app id and pair id: after a successful
-cancel, every order listed in the owner's market-making index of that pair is ended, and the index is gone.  (Each of
-them was refunded: `finish_moves_exactly`, `terminated_settled`.) -/
-theorem mm_cancel_cancels_all {cfg : Cfg} (hsw : cfg.swapLookup = false) {s s' : State} {app user pair : Nat} {idx : MMIndex}
+/-! ### the swap-fee collector -/
+
+/-- **The swap-fee collector of a pair, every message and every block hook**: for every operation other than the begin-block
+pruning, the balance of the pair's swap-fee collector in denom `d` plus the fee attributable to the executed portions of the
+orders that were ALREADY ended before = its balance before plus that of the orders ended after — it grows by exactly
+`Σ ⌊executed·feeRate⌋` over the orders of the pair (offer denom `d`) that ended in this step: cancels, cancel-all, MM cancel /
+replace, and at batch execution the expiry pre-pass, completed fills and the expiry / too-small sweep.  Partially filled
+orders that stay live forward nothing (their whole reserve stays in escrow: `escrow_holds_only_live_orders`). -/
+theorem fee_collector_exact (cfg : Cfg) (s : State) (op : Op) (a p : Nat) (d : Denom) (hop : ∀ x, op ≠ .beginBlock x) :
+    (stepT cfg s op).bal (.swapFee a p) d + fwdSum cfg a p d s.orders =
+      s.bal (.swapFee a p) d + fwdSum cfg a p d (stepT cfg s op).orders := by
+  unfold stepT
+  cases hs : step cfg s op with
+  | none => simp
+  | some s' => simp only [Option.getD_some]; exact step_feeEq a p d hop hs
+
+/-- the begin-block pruning moves no coin at all (it deletes ended orders and executed requests) -/
+theorem pruning_moves_nothing (cfg : Cfg) (s : State) (app : Nat) : (stepT cfg s (.beginBlock app)).bank = s.bank := rfl
+
+/-- **End to end for one ended order, against the account balances**: when a live order of a reachable state is ended, the
+escrow gives up exactly remaining + reserve, of which exactly `⌊executed·rate⌋` reaches the swap-fee collector and exactly
+the rest — the unspent offer coin plus the part of the reserve not attributable to the executed portion — reaches the owner;
+`taken = executed + that refund + that fee`. -/
+theorem ended_order_accounts {cfg : Cfg} (hc : CfgOk cfg) (funds : List (Nat × Nat × Nat)) (ops : List Op)
+    {k : OKey} {st : OStatus} {o : Order} {s' : State}
+    (ho : (after cfg funds ops).order? k = some o) (hl : o.status.live = true)
+    (h : finishOrder cfg (after cfg funds ops) k st = some s') :
+    let r := rateOf cfg o.app
+    let refund := o.remaining + (feeRes r o - fwdSpec r o)
+    s'.bal (.user o.owner) o.od = (after cfg funds ops).bal (.user o.owner) o.od + refund ∧
+    s'.bal (.swapFee o.app o.pair) o.od = (after cfg funds ops).bal (.swapFee o.app o.pair) o.od + fwdSpec r o ∧
+    s'.bal (.pairEscrow o.app o.pair) o.od + refund + fwdSpec r o = (after cfg funds ops).bal (.pairEscrow o.app o.pair) o.od ∧
+    o.taken = (o.offer - o.remaining) + refund + fwdSpec r o := by
+  have hi := reachable_inv hc funds ops
+  obtain ⟨m1, m2, m3⟩ := finish_moves_exactly hi ho hl h
+  obtain ⟨ht, hle, -, -⟩ := hi.ords o (order?_some ho).1
+  have := fwdSpec_le (rateOf cfg o.app) o
+  refine ⟨m1, m2, ?_, ?_⟩
+  · omega
+  · rw [ht]; omega
+
+/-! ### index completeness as an inductive invariant, and what it gives for `MsgCancelMMOrder` / `MsgMMOrder` -/
+
+theorem reachable_idx {cfg : Cfg} (hsw : cfg.swapLookup = false) (funds : List (Nat × Nat × Nat)) (ops : List Op) :
+    IdxInv (after cfg funds ops) :=
+  runT_idx hsw ops _ (genesis_idx funds)
+
+/-- **Order keys are unique** in every reachable state: the store lookup `(appId, pairId, id)` of an order's key returns
+that very order (ids are allotted by the pair's counter and never re-used, also after begin-block pruning). -/
+theorem order_keys_unique {cfg : Cfg} (hsw : cfg.swapLookup = false) (funds : List (Nat × Nat × Nat)) (ops : List Op) :
+    ((after cfg funds ops).orders.map Order.key).Nodup ∧
+    ∀ o ∈ (after cfg funds ops).orders, (after cfg funds ops).order? o.key = some o :=
+  ⟨(reachable_idx hsw funds ops).uniq, fun _ ho => (reachable_idx hsw funds ops).lookup ho⟩
+
+/-- **Index completeness** (every history: placement, fills, expiry, cancel, cancel-all, MM cancel, MM replace, begin-block
+pruning, …): every LIVE market-making order is listed in the market-making index of its owner for its (app, pair). -/
+theorem mm_index_complete {cfg : Cfg} (hsw : cfg.swapLookup = false) (funds : List (Nat × Nat × Nat)) (ops : List Op) :
+    ∀ o ∈ (after cfg funds ops).orders, o.typ = .mm → o.status.live = true →
+      ∃ idx, findBy (isMM o.app o.pair o.owner) (after cfg funds ops).mm = some idx ∧ o.id ∈ idx.ids :=
+  (reachable_idx hsw funds ops).complete
+
+/-- **MsgCancelMMOrder cancels EVERY market-making order of the owner in the pair** (repaired lookup; every app id and pair id;
+NO premise about the index): in every reachable state, after an accepted `MsgCancelMMOrder(app, user, pair)` no order has
+disappeared, no market-making order of that owner in that (app, pair) is live any more, each of them carries its settlement
+(refund = unspent offer, `terminated_settled`'s formula), and the index entry is gone. -/
+theorem mm_cancel_cancels_all {cfg : Cfg} (hc : CfgOk cfg) (hsw : cfg.swapLookup = false) (funds : List (Nat × Nat × Nat))
+    (ops : List Op) {s' : State} {app user pair : Nat}
+    (h : step cfg (after cfg funds ops) (.cancelMM app user pair) = some s') :
+    s'.orders.map Order.key = (after cfg funds ops).orders.map Order.key ∧
+    (∀ o ∈ s'.orders, o.app = app → o.pair = pair → o.owner = user → o.typ = .mm →
+      o.status.live = false ∧ o.refunded = o.remaining ∧ o.feeFwd = 0) ∧
+    findBy (isMM app pair user) s'.mm = none := by
+  have hi := reachable_idx hsw funds ops
+  have hinv : Inv cfg s' := step_inv hc (reachable_inv hc funds ops) h
+  simp only [step] at h
+  unfold cancelMM at h
+  split at h; · cases h
+  split at h; · cases h
+  rename_i p hp
+  obtain ⟨-, -, hpi⟩ := pair?_some hp
+  obtain ⟨-, b, c⟩ := idx_cancelMMCore hsw hi h
+  rw [hpi] at b c
+  refine ⟨keys_cancelMMCore h, ?_, c⟩
+  intro o ho e1 e2 e3 ht
+  have hl := b o ho e1 e2 e3 ht
+  obtain ⟨-, -, -, hterm⟩ := hinv.ords o ho
+  obtain ⟨hr, hf⟩ := hterm hl
+  simp only [feeRes, fwdSpec, ht, if_true, Nat.sub_zero, Nat.add_zero] at hr hf
+  exact ⟨hl, hr, hf⟩
+
+/-- **MsgMMOrder (replace) cancels EVERY previous market-making order of the owner in the pair** (repaired lookup, NO premise
+about the index): the accepted message's result is `s1.orders ++ new` where `s1` holds exactly the orders that were there before
+(same keys), none of the owner's market-making orders in the pair is live in `s1`, and `new` are the freshly placed ones. -/
+theorem mm_replace_cancels_all {cfg : Cfg} (hsw : cfg.swapLookup = false) (funds : List (Nat × Nat × Nat)) (ops : List Op)
+    {s' : State} {app user pair : Nat} {maxSell minSell sellAmt maxBuy minBuy buyAmt : Nat} {lifespan : Int}
+    (h : step cfg (after cfg funds ops) (.mmOrder app user pair maxSell minSell sellAmt maxBuy minBuy buyAmt lifespan) = some s') :
+    ∃ (s1 : State) (new : List Order), s'.orders = s1.orders ++ new ∧
+      s1.orders.map Order.key = (after cfg funds ops).orders.map Order.key ∧
+      (∀ o ∈ s1.orders, o.app = app → o.pair = pair → o.owner = user → o.typ = .mm → o.status.live = false) ∧
+      (∀ o ∈ new, o.status = .notExecuted ∧ o.typ = .mm ∧ o.owner = user ∧ o.app = app ∧ o.pair = pair) := by
+  have hi := reachable_idx hsw funds ops
+  simp only [step] at h
+  obtain ⟨buys, sells, h⟩ := mmOrderMsg_core h
+  obtain ⟨p, s1, new, hp, hc1, ho, hn⟩ := mmOrder_split h
+  obtain ⟨-, -, hpi⟩ := pair?_some hp
+  obtain ⟨-, b, -⟩ := idx_cancelMMCore hsw hi hc1
+  rw [hpi] at b
+  exact ⟨s1, new, ho, keys_cancelMMCore hc1, b, hn⟩
+
+/-- the index-relative form (any state, not only reachable ones): every order listed in the owner's index is ended -/
+theorem mm_cancel_cancels_indexed {cfg : Cfg} (hsw : cfg.swapLookup = false) {s s' : State} {app user pair : Nat} {idx : MMIndex}
     (hidx : findBy (isMM app pair user) s.mm = some idx) (h : step cfg s (.cancelMM app user pair) = some s') :
     (∀ i ∈ idx.ids, ∀ o, s'.order? (app, pair, i) = some o → o.status.live = false) ∧
     findBy (isMM app pair user) s'.mm = none := by
@@ -180,38 +306,54 @@ theorem mm_cancel_cancels_all {cfg : Cfg} (hsw : cfg.swapLookup = false) {s s' :
   rw [← hpi] at hidx ⊢
   exact cancelMMCore_all hsw hidx h
 
-/-- **MsgMMOrder (replace) cancels every previously indexed order** (repaired lookup): the orders of the new message
-are appended behind a state in which every order of the old index is ended. -/
-theorem mm_replace_cancels_all {cfg : Cfg} (hsw : cfg.swapLookup = false) {s s' : State} {app user pair : Nat}
-    {buys sells : List Tick} {lifespan : Int} {ext : Bool} {idx : MMIndex}
-    (hidx : findBy (isMM app pair user) s.mm = some idx) (h : step cfg s (.mmOrder app user pair buys sells lifespan ext) = some s') :
-    ∃ (s1 : State) (new : List Order), s'.orders = s1.orders ++ new ∧
-      (∀ i ∈ idx.ids, ∀ o, s1.order? (app, pair, i) = some o → o.status.live = false) := by
+/-! ### the store migration 1 → 2 (`Migrator.Migrate1to2`) -/
+
+/-- everything of an order record except its type -/
+def orderAmounts (o : Order) :=
+  (o.key, o.owner, o.buy, o.od, o.dd, o.price, o.amount, o.openAmt, o.offer, o.remaining, o.received, o.status, o.batch, o.expireAt,
+   o.taken, o.refunded, o.feeFwd)
+
+/-- **The store migration is the identity on what the property speaks about**: no coin moves, pairs / requests / MM indexes /
+farmers are untouched, every order keeps its key, owner, offer coin, REMAINING offer coin, received coin, open amount, status,
+batch and expiry and its fee reserve; only the order type is rewritten (`market` becomes `limit` — same fee rule), and pool
+records keep everything but the `ranged` flag.  With `step_inv` (`reachable_inv`) every theorem of this file holds for
+histories that contain migrations: an order that is partially filled, lives through the migration and is cancelled / expires
+afterwards is settled by `terminated_settled`'s formula. -/
+theorem migration_preserves_orders {cfg : Cfg} {s s' : State} (h : step cfg s .migrate = some s') :
+    s'.bank = s.bank ∧ s'.pairs = s.pairs ∧ s'.deps = s.deps ∧ s'.wdrs = s.wdrs ∧ s'.mm = s.mm ∧ s'.farmers = s.farmers ∧
+    s'.orders.map orderAmounts = s.orders.map orderAmounts ∧
+    (∀ r, s'.orders.map (feeRes r) = s.orders.map (feeRes r)) ∧
+    s'.pools.map (fun q => (q.app, q.id, q.pair, q.disabled, q.ps, q.lastDep, q.lastWdr)) =
+      s.pools.map (fun q => (q.app, q.id, q.pair, q.disabled, q.ps, q.lastDep, q.lastWdr)) := by
   simp only [step] at h
-  unfold mmOrder at h
-  split at h; · cases h
-  split at h; · cases h
-  split at h; · cases h
-  split at h; · cases h
-  rename_i p hp
-  simp only [] at h
-  split at h; · cases h
-  split at h; · cases h
-  split at h; · cases h
-  split at h; · cases h
-  rename_i s1 hc1
-  split at h; · cases h
-  rename_i s2 h2
-  split at h; · cases h
-  rename_i s3 h3
-  cases h
-  obtain ⟨-, -, hpi⟩ := pair?_some hp
-  rw [← hpi] at hidx
-  refine ⟨s1, mkMMOrders p user true (s.now + lifespan) p.lastOrderId buys ++
-    mkMMOrders p user false (s.now + lifespan) (p.lastOrderId + buys.length) sells, ?_, ?_⟩
-  · show s3.orders ++ _ = s1.orders ++ _
-    rw [(State.send_fields h3).2.2.2.2.1, (State.send_fields h2).2.2.2.2.1]
-  · rw [← hpi]; exact (cancelMMCore_all hsw hidx hc1).1
+  unfold migrate at h
+  split at h
+  · rename_i hv
+    cases h
+    obtain ⟨hty, -, -⟩ := hv
+    refine ⟨rfl, rfl, rfl, rfl, rfl, rfl, ?_, ?_, ?_⟩
+    · show (s.orders.map _).map orderAmounts = _
+      rw [List.map_map]
+      apply List.map_congr_left
+      intro o _
+      simp only [Function.comp]
+      split <;> rfl
+    · intro r
+      show (s.orders.map _).map (feeRes r) = _
+      rw [List.map_map]
+      apply List.map_congr_left
+      intro o ho
+      simp only [Function.comp]
+      split
+      · simp [feeRes, hty o ho]
+      · rfl
+    · show (s.pools.map _).map _ = _
+      rw [List.map_map]
+      apply List.map_congr_left
+      intro q _
+      simp only [Function.comp]
+      split <;> rfl
+  · cases h
 
 /-! ### Defect D4: with the lookup as it stands in swap.go:559 the claim is false for app id ≠ pair id -/
 
@@ -231,9 +373,8 @@ def opsD4 : List Op :=
     .createPair 2 0 (.coin 1) (.coin 2) true,
     .createPair 1 0 (.coin 1) (.coin 2) true,
     .createPair 1 0 (.coin 2) (.coin 3) true,
-    .mmOrder 2 1 1 [{ offer := 900000, price := 900000000000000000, amount := 1000000 }]
-                   [{ offer := 1000000, price := 1100000000000000000, amount := 1000000 }] 3600 true,
-    .order 1 2 2 .limit false 2000000 1000000000000000000 1000000000000000000 1000000 3600 true,
+    .mmOrder 2 1 1 1100000000000000000 1100000000000000000 1000000 900000000000000000 900000000000000000 1000000 3600,
+    .order 1 2 2 .limit false (.coin 2) (.coin 3) 2000000 1000000000000000000 1000000 3600,
     .endBlock 1 [] [] [], .endBlock 2 [] [] [],
     .block 2 105,
     .cancelMM 2 1 1 ]
@@ -245,7 +386,7 @@ theorem mm_cancel_cancels_all_counterexample :
     s.mm = [] ∧
     (s.orders.filter (fun o => o.app == 2 && o.pair == 1)).map (fun o => (o.id, o.status)) = [(1, .notMatched), (2, .notMatched)] ∧
     (s.orders.filter (fun o => o.app == 1 && o.pair == 2)).map (fun o => (o.id, o.owner, o.status)) = [(1, 2, .canceled)] := by
-  decide
+  decide +kernel
 
 /-- the same history with the repaired lookup: both orders cancelled, the stranger's order untouched -/
 example :
@@ -253,7 +394,26 @@ example :
     s.mm = [] ∧
     (s.orders.filter (fun o => o.app == 2 && o.pair == 1)).map (fun o => (o.id, o.status)) = [(1, .canceled), (2, .canceled)] ∧
     (s.orders.filter (fun o => o.app == 1 && o.pair == 2)).map (fun o => (o.id, o.owner, o.status)) = [(1, 2, .notMatched)] := by
-  decide
+  decide +kernel
+
+/-- non-vacuity of `mm_index_complete` / `mm_cancel_cancels_all` / `order_keys_unique`: before the cancel both market-making
+orders of user 1 in (app 2, pair 1) are live and listed in the index, the stranger's order has the mirrored key, the message is
+accepted -/
+example :
+    let s := after (cfgD4 false) fundsD4 opsD4.dropLast
+    (s.orders.filter (fun o => o.typ == .mm && o.status.live)).map (fun o => (o.key, o.owner)) = [((2, 1, 1), 1), ((2, 1, 2), 1)] ∧
+    s.mm.map (fun x => (x.app, x.pair, x.owner, x.ids)) = [(2, 1, 1, [1, 2])] ∧
+    s.orders.map Order.key = [(2, 1, 1), (2, 1, 2), (1, 2, 1)] ∧
+    (step (cfgD4 false) s (.cancelMM 2 1 1)).isSome = true := by
+  decide +kernel
+
+/-- non-vacuity of `mm_replace_cancels_all`: a second `MsgMMOrder` in the next batch ends orders 1, 2 and places 3, 4 -/
+example :
+    ((after (cfgD4 false) fundsD4 (opsD4.dropLast ++
+        [.mmOrder 2 1 1 1200000000000000000 1200000000000000000 1000000 800000000000000000 800000000000000000 1000000 3600])).orders.filter
+      (fun o => o.app == 2)).map (fun o => (o.id, o.status)) =
+    [(1, .canceled), (2, .canceled), (3, .notExecuted), (4, .notExecuted)] := by
+  decide +kernel
 
 /-- two pairs of one app; user 1 has an older sell order in pair 2 and a fresh one in pair 1; cancel-all (no pair named) ends
 the older one although a current-batch order of a LOWER pair id comes first in the owner's index -/
@@ -261,14 +421,14 @@ def opsCancelAll : List Op :=
   [ .block 1 100,
     .createPair 1 0 (.coin 1) (.coin 2) true,
     .createPair 1 0 (.coin 2) (.coin 3) true,
-    .order 1 1 2 .limit false 2000000 1000000000000000000 1000000000000000000 1000000 3600 true,
+    .order 1 1 2 .limit false (.coin 2) (.coin 3) 2000000 1000000000000000000 1000000 3600,
     .endBlock 1 [] [] [],
     .block 2 105,
-    .order 1 1 1 .limit false 2000000 1000000000000000000 1000000000000000000 1000000 3600 true,
+    .order 1 1 1 .limit false (.coin 1) (.coin 2) 2000000 1000000000000000000 1000000 3600,
     .cancelAll 1 1 [] ]
 
 example : ((after (cfgD4 false) fundsD4 opsCancelAll).orders.map fun o => (o.pair, o.id, o.status)) =
-    [(2, 1, .canceled), (1, 1, .notExecuted)] := by decide
+    [(2, 1, .canceled), (1, 1, .notExecuted)] := by decide +kernel
 
 /-! ### Non-vacuity -/
 
@@ -281,8 +441,8 @@ theorem cfgD4_ok (b : Bool) : CfgOk (cfgD4 b) := by
 def opsLife : List Op :=
   [ .block 1 100,
     .createPair 1 0 (.coin 1) (.coin 2) true,
-    .order 1 1 1 .limit false 2000000 1000000000000000000 1000000000000000000 1000000 50 true,   -- sell 1 000 000, fee 3000
-    .order 1 2 1 .limit true 2000000 1000000000000000000 1000000000000000000 400000 3600 true,   -- buy 400 000, fee 1200
+    .order 1 1 1 .limit false (.coin 1) (.coin 2) 2000000 1000000000000000000 1000000 50,   -- sell 1 000 000, fee 3000
+    .order 1 2 1 .limit true (.coin 2) (.coin 1) 2000000 1000000000000000000 400000 3600,   -- buy 400 000, fee 1200
     .endBlock 1 [{ pair := 1, fills := [{ id := 1, buy := false, paid := 400000, recv := 400000, matched := 400000 },
                                         { id := 2, buy := true, paid := 400000, recv := 400000, matched := 400000 }],
                    pools := [], dust := 0 }] [] [],
@@ -293,11 +453,40 @@ def opsLife : List Op :=
 buyer completed: refunded 0, forwarded 1200 -/
 example : ((after (cfgD4 false) fundsD4 opsLife).orders.map fun o => (o.id, o.status, o.taken, o.remaining, o.refunded, o.feeFwd)) =
     [(1, .canceled, 1003000, 600000, 601800, 1200), (2, .completed, 401200, 0, 0, 1200)] := by
-  decide
+  decide +kernel
 
 example : (after (cfgD4 false) fundsD4 opsLife).bal (.pairEscrow 1 1) (.coin 1) = 0 ∧
     (after (cfgD4 false) fundsD4 opsLife).bal (.swapFee 1 1) (.coin 1) = 1200 ∧
     (after (cfgD4 false) fundsD4 opsLife).bal (.user 1) (.coin 1) = 10000000 - 1003000 + 601800 := by
-  decide
+  decide +kernel
+
+/-- non-vacuity of `fee_collector_exact`: the batch of `opsLife` completes the buyer (fee 1200 of coin 2 forwarded in the batch),
+the later cancel of the partially filled seller forwards 1200 of coin 1 -/
+example :
+    (after (cfgD4 false) fundsD4 (opsLife.take 4)).bal (.swapFee 1 1) (.coin 2) = 0 ∧
+    (after (cfgD4 false) fundsD4 (opsLife.take 5)).bal (.swapFee 1 1) (.coin 2) = 1200 ∧
+    fwdSum (cfgD4 false) 1 1 (.coin 2) (after (cfgD4 false) fundsD4 (opsLife.take 5)).orders = 1200 ∧
+    fwdSum (cfgD4 false) 1 1 (.coin 1) (after (cfgD4 false) fundsD4 (opsLife.take 5)).orders = 0 ∧
+    fwdSum (cfgD4 false) 1 1 (.coin 1) (after (cfgD4 false) fundsD4 opsLife).orders = 1200 := by
+  decide +kernel
+
+/-- non-vacuity of `ended_order_accounts` / `finish_moves_exactly`: before the last op of `opsLife` the seller's order (key (1, 1, 1)) is
+live and partially filled, and `FinishOrder` on it succeeds -/
+example :
+    let s := after (cfgD4 false) fundsD4 opsLife.dropLast
+    (s.order? (1, 1, 1)).map (fun o => (o.status, o.offer, o.remaining)) = some (.partially, 1000000, 600000) ∧
+    (finishOrder (cfgD4 false) s (1, 1, 1) .canceled).isSome = true := by
+  decide +kernel
+
+/-- the partially filled seller of `opsLife` lives through the migration and cancels afterwards: refunded 600 000 + (3000 − 1200),
+forwarded 1200 — exactly as without the migration (the seeded change s87, which copies the OFFER coin into the remaining offer
+coin, makes the real chain refund 1 003 000 here) -/
+example : ((after (cfgD4 false) fundsD4 (opsLife.dropLast ++ [.migrate, .cancel 1 1 1 1])).orders.map
+      fun o => (o.id, o.status, o.taken, o.remaining, o.refunded, o.feeFwd)) =
+    [(1, .canceled, 1003000, 600000, 601800, 1200), (2, .completed, 401200, 0, 0, 1200)] := by
+  decide +kernel
+
+/-- and the migration is accepted there (the store is a version-1 store: no market-making orders, no ranged pools) -/
+example : (step (cfgD4 false) (after (cfgD4 false) fundsD4 opsLife.dropLast) .migrate).isSome = true := by decide +kernel
 
 end Comdex.C07
